@@ -56,8 +56,24 @@ pub(super) fn run_artifact_fetch(
         Err(err) => return ToolOutput::failure(vec![format!("artifact_fetch failed: {err}")]),
     };
     buf.truncate(read_bytes);
+    if let Err(err) = std::str::from_utf8(&buf) {
+        if err.error_len().is_none() && (offset + read_bytes as u64) < total_bytes {
+            if err.valid_up_to() > 0 {
+                buf.truncate(err.valid_up_to());
+            } else {
+                let mut extra = [0u8; 1];
+                while buf.len() < 4 && std::str::from_utf8(&buf).is_err() {
+                    match file.read(&mut extra) {
+                        Ok(1) => buf.push(extra[0]),
+                        _ => break,
+                    }
+                }
+            }
+        }
+    }
+    let read_bytes = buf.len();
 
-    let (content, utf8_truncated, used_bytes) = truncate_utf8(&buf, max_bytes);
+    let (content, utf8_truncated, used_bytes) = truncate_utf8(&buf, buf.len());
     let truncated = utf8_truncated || (offset + read_bytes as u64) < total_bytes;
 
     ToolOutput {
